@@ -7,6 +7,7 @@
 //! crate (built from /repo's working tree) does on the case's input.
 
 mod common;
+mod c01;
 mod c02;
 mod c03;
 mod c04;
@@ -31,6 +32,9 @@ mod sources;
 
 use common::*;
 
+#[global_allocator]
+static ALLOC: Counting = Counting;
+
 fn main() {
     let a: Vec<String> = std::env::args().collect();
     if a.len() < 6 {
@@ -43,9 +47,17 @@ fn main() {
     let shard: u64 = a[4].parse().unwrap();
     let nshards: u64 = a[5].parse().unwrap();
     std::panic::set_hook(Box::new(|_| {}));
+    // hang watchdog: a case running longer than the limit ends the process with status 97
+    let hang_ms: u64 = std::env::var("VERIF_HANG_MS").ok().and_then(|v| v.parse().ok()).unwrap_or(60_000);
+    std::thread::spawn(move || loop {
+        std::thread::sleep(std::time::Duration::from_millis(250));
+        let st = CASE_START.load(std::sync::atomic::Ordering::Relaxed);
+        if st != 0 && now_ms() > st + hang_ms { eprintln!("HANG: a case ran longer than {} ms", hang_ms); std::process::exit(97); }
+    });
     let mut em = Emitter::new(shard, nshards);
     let mut rng = Rng::new(seed);
     match prop {
+        "C01" => c01::run(&mut em, &mut rng, thorough),
         "C02" => c02::run(&mut em, &mut rng, thorough),
         "C03" => c03::run(&mut em, &mut rng, thorough),
         "C11" => c11::run(&mut em, &mut rng, thorough),
